@@ -80,6 +80,13 @@ def points(tier: str) -> List[dict]:
                 if h <= 6:
                     pts.append({"kind": "wide", "n": n, "w": 3, "height": h, "dom_h": 4, "cons": 0, "limit": 3 ** n, "needs": 2 * n + 1})
                     pts.append({"kind": "chain", "n": n + 1, "w": 4, "height": h, "dom_h": 2, "cons": 0, "limit": 1000, "needs": None})
+    # two levels per choice right at the representable limit: the 8-bit top of stack must not wrap
+    for h in (250, 251, 252, 253, 254, 255, 256):
+        for delta in (-1, 0, 1, 2):
+            n = (h - 1) // 2 + delta
+            for dh in (3, 4):
+                pts.append({"kind": "wide", "n": n, "w": 3, "height": h, "dom_h": dh, "cons": 0, "limit": 1, "needs": 2 * n + 1, "ref_height": 253})
+            pts.append({"kind": "wide", "n": n, "w": 3, "height": h, "dom_h": 3, "cons": 1, "limit": 1, "needs": 2 * n + 1, "ref_height": 253})
     # heights the 8-bit stack pointer cannot represent (or that are not heights at all)
     for h in (254, 255, 256, 257, 300, 512, 1000, 0, -1):
         pts.append({"kind": "bools", "n": 5, "height": h, "dom_h": 0, "cons": 0, "limit": 32, "needs": 6})
@@ -151,6 +158,11 @@ def judge(spec: dict, res: dict, mode: str):
         if pt["n"] != want:
             return "violation", ("wrong-result", f"{mode}: {pt['n']} solutions, expected {want}: {pt['solutions'][:3]}")
         return "ok-equal", ""
+    exp = expected_first(spec)
+    if exp is not None and pt["solutions"][:1] != [exp]:
+        return "violation", ("wrong-result", f"{mode}: height {spec['height']} gives first solution {str(pt['solutions'][:1])[:120]}, the definition gives {str(exp)[:60]}")
+    if exp is not None and spec.get("needs") and spec["cons"] == 0 and pt["depth"] != spec["needs"] - 1:
+        return "violation", ("wrapped-statistic", f"{mode}: depth statistic {pt['depth']} but the first solution needs depth {spec['needs'] - 1}")
     if ref is None or ref["outcome"] != "ok":
         return "ok-equal" if pt["outcome"] == "ok" else "ok-error", "no reference"
     if (pt["solutions"], pt["n"]) != (ref["solutions"], ref["n"]):
@@ -158,6 +170,21 @@ def judge(spec: dict, res: dict, mode: str):
     if pt["depth"] != ref["depth"] or pt["choices"] != ref["choices"]:
         return "violation", ("wrapped-statistic", f"{mode}: depth/choices {pt['depth']}/{pt['choices']} vs {ref['depth']}/{ref['choices']} with an ample stack")
     return "ok-equal", ""
+
+
+def expected_first(spec: dict):
+    """First solution known from the definition of the heuristic (independent of any run)."""
+    if spec.get("limit") != 1 or spec.get("kind") not in ("bools", "wide"):
+        return None
+    n = spec["n"]
+    if spec["kind"] == "bools":
+        v = {0: 0, 1: 1}.get(spec.get("dom_h", 0))
+    else:
+        v = {3: 1, 4: 1}.get(spec.get("dom_h", 0)) if spec.get("w") == 3 else None
+    if v is None:
+        return None
+    sol = [v] * n
+    return sol if n <= 40 else [sum(sol), n]
 
 
 def run(ch: Choices, focus: str = "C19", params: Optional[dict] = None) -> dict:
